@@ -20,7 +20,11 @@
       11 SimplifyBezPath::moment_integrals  [ts; te; els...]  -> [a x y]
       12 Line::nearest(..).distance_sq    [l(4); p(2)]        -> [d]
       13 try_fit_line (through fit_to_cubic on a short chord)
-           [acc; s; e; start(2); end(2); 7*(t px py)]          -> [0] | [1; c(8); max_err2] *)
+           [acc; s; e; start(2); end(2); 7*(t px py)]          -> [0] | [1; c(8); max_err2]
+      14 CurveDist::from_curve's sample parameters: the 22 arguments of sample_pt_tangent(., 1.0)
+         logged by an instrumented source during the real fit_to_cubic   [s; e] -> [t_0 .. t_21]
+      15 CurveDist::from_curve through the hook verif_curvedist_samples (hooks/C18-curvedist-samples.diff):
+           [s; e; 22*(t px py tx ty)] -> [spicy; 20*(px py tx ty)]  (kept samples, in order) *)
 From Coq Require Import ZArith Floats List Bool.
 From KV Require Import Scalar F64 Geom Curves Path Fit Corr.
 Import ListNotations.
@@ -327,6 +331,27 @@ Definition eval (op : Z) (a : list float) : option (list float) :=
                     | None => [0%float]
                     | Some (c, err) => 1%float :: cubic_out c ++ [err]
                     end)
+          | _ => None
+          end
+      | _ => None
+      end
+  | 14 =>
+      match a with
+      | [s; e] => Some (cd_ts s e)
+      | _ => None
+      end
+  | 15 =>
+      match a with
+      | s :: e :: r =>
+          match take_rows 5 22 r with
+          | Some (tbl, []) =>
+              let look := fix look (tb : list (list float)) (t : float) : Sample float :=
+                match tb with
+                | [k; x; y; tx; ty] :: r' => if PrimFloat.eqb k t then mkSample (P x y) (mkVec2 tx ty) else look r' t
+                | _ => mkSample nanp (mkVec2 nan nan)
+                end in
+              let '(kept, spicy) := cd_from_curve (fun t _ => look tbl t) s e in
+              Some (b2f spicy :: flat_map (fun sm => pt_out (s_p sm) ++ v_out (s_tan sm)) kept)
           | _ => None
           end
       | _ => None
